@@ -84,7 +84,11 @@ def remove_empty_metadata(a: ast.AST) -> ast.AST:
             assert isinstance(n, ast.Call)
             if isinstance(n.func, ast.Name) and n.func.id == "MetaData":
                 if len(n.args) == 2:
-                    d = ast.literal_eval(n.args[1])
+                    try:
+                        d = ast.literal_eval(n.args[1])
+                    except ValueError:
+                        # Not a literal: it can't be the empty dictionary, so it stays
+                        d = None
                     if isinstance(d, dict) and len(d) == 0:
                         return n.args[0]
             return n
